@@ -103,16 +103,20 @@ def eraOf (cfg : Cfg) (height : Nat) : Nat :=
 def heightOk (cfg : Cfg) (l : Ledger) (v2 : Bool) : Bool :=
   if v2 then decide (cfg.allow ≤ l.height + 1) else decide (l.height + 1 < cfg.require)
 
-/-- one input, given the elements spent so far (mid-state and earlier inputs of the same
-transaction) and the elements created in the mid-state -/
-def inpOk (l : Ledger) (created spent : List Nat) (v2 : Bool) (i : Inp) : Bool :=
-  !spent.contains i.elem &&
-  (if v2 then
+/-- is the element an input names there to be spent?  `created` = the elements created in the
+mid-state -/
+def inpRes (l : Ledger) (created : List Nat) (v2 : Bool) (i : Inp) : Bool :=
+  if v2 then
     match i.leaf with
     | none => created.contains i.elem                          -- validateEphemeralSiacoinElement
     | some lf => !i.bad && l.leafOf i.elem == some lf          -- containsUnspent…Element
   else
-    created.contains i.elem || (l.leafOf i.elem).isSome)       -- ms.siacoinElement(ts, id)
+    created.contains i.elem || (l.leafOf i.elem).isSome        -- ms.siacoinElement(ts, id)
+
+/-- one input, given the elements spent so far (mid-state and earlier inputs of the same
+transaction) and the elements created in the mid-state -/
+def inpOk (l : Ledger) (created spent : List Nat) (v2 : Bool) (i : Inp) : Bool :=
+  !spent.contains i.elem && inpRes l created v2 i
 
 def inputsOk (l : Ledger) (created : List Nat) (v2 : Bool) : List Nat → List Inp → Bool
   | _, [] => true
